@@ -171,15 +171,15 @@ pub fn code_cons(push_state: &mut PushState, _instruction_cache: &InstructionCac
         let mut consblock = PushStack::new();
         for i in (0..2).rev() {
             match &pv[i] {
-                Item::Literal { push_type: _ } => {
-                    consblock.push(pv[i].clone());
-                }
                 Item::List { items: a } => {
                     if let Some(vec) = a.copy_vec(a.size()) {
                         consblock.push_vec(vec)
                     }
                 }
-                _ => (),
+                // any atom (literal, instruction or name) is consed as it is
+                _ => {
+                    consblock.push(pv[i].clone());
+                }
             }
         }
         push_state.code_stack.push(Item::List { items: consblock });
